@@ -76,6 +76,83 @@ def screenOf (attrs : List Attr) : CHText.Cells → Option (List (Char × Attr))
     | some a, some r => some ((c, a) :: r)
     | _, _ => none
 
+/-! ### chunk lists given as data (the judged path of the driver)
+
+The observable `cht` / `make` / `hist` / `ops` lines carry the chunk list the real object reports;
+the driver renders that list with `renderGiven`. A chunk is given by the colour id of its formatter,
+or (`raw`) by an explicit prefix/suffix pair when no formatter of the line produced it. -/
+
+inductive Given where
+  | byId (col : Nat) (text : List Char)
+  | raw (pre suf text : List Char)
+  deriving Repr, DecidableEq
+
+def Given.text : Given → List Char
+  | .byId _ t => t
+  | .raw _ _ t => t
+
+def givenChunk (pal : Palette) : Given → Option Sgr.Chunk
+  | .byId col t => (entry pal col).map fun e => ⟨e.1, t, e.2⟩
+  | .raw p q t => some ⟨p, t, q⟩
+
+def givenChunks (pal : Palette) : List Given → Option (List Sgr.Chunk)
+  | [] => some []
+  | g :: gs =>
+    match givenChunk pal g, givenChunks pal gs with
+    | some c, some cs => some (c :: cs)
+    | _, _ => none
+
+/-- `str(x)` for the given chunk list -/
+def renderGiven (pal : Palette) (gs : List Given) : Option (List Char) :=
+  (givenChunks pal gs).map Sgr.render
+
+/-- the characters between `ESC [` and the final `m` of a string that is exactly one sequence -/
+def seqBody : List Char → Option (List Char)
+  | a :: b :: rest =>
+    if a = ESC ∧ b = '[' ∧ rest.getLast? = some 'm' then some rest.dropLast else none
+  | _ => none
+
+/-- the parameter characters of the sequences this package emits -/
+def paramAlphabet : List Char := ";0123456789:".toList
+
+/-- attributes a well-formed raw prefix switches a terminal in default state to -/
+def rawAttr (p : List Char) : Option Attr :=
+  match p with
+  | [] => some Attr.default
+  | _ =>
+    match seqBody p with
+    | some body => if body.all paramAlphabet.contains then applySgr body Attr.default else none
+    | none => none
+
+/-- well-formedness of an explicit prefix/suffix pair (checked by the driver on every `raw` chunk):
+both empty, or the prefix is one SGR sequence of parameters the terminal accepts and the suffix is
+one SGR sequence that brings the terminal from there back to default state -/
+def rawOk (p q : List Char) : Bool :=
+  match p, q with
+  | [], [] => true
+  | _, _ =>
+    match rawAttr p, seqBody q with
+    | some a, some body => body.all paramAlphabet.contains && applySgr body a == some Attr.default && !p.isEmpty
+    | _, _ => false
+
+def Given.ok : Given → Bool
+  | .byId _ _ => true
+  | .raw p q _ => rawOk p q
+
+/-- attributes requested for the characters of a given chunk: those of its formatter, or what its
+explicit prefix sets -/
+def Given.attr (attrs : List Attr) : Given → Option Attr
+  | .byId col _ => attrOf attrs col
+  | .raw p _ _ => rawAttr p
+
+/-- what should be on the screen for a given chunk list -/
+def givenScreen (attrs : List Attr) : List Given → Option (List (Char × Attr))
+  | [] => some []
+  | g :: gs =>
+    match g.attr attrs, givenScreen attrs gs with
+    | some a, some rest => some (g.text.map (fun c => (c, a)) ++ rest)
+    | _, _ => none
+
 /-! ### histories of one object -/
 
 inductive HOp where
